@@ -30,7 +30,7 @@ import (
 var progress int64
 var lastCall atomic.Value
 
-const stuckAfter = 20 * time.Second
+const stuckAfter = 10 * time.Second
 
 func tick(what string) {
 	lastCall.Store(what)
@@ -39,17 +39,20 @@ func tick(what string) {
 
 func watchdog(c *hx.Ctx) {
 	go func() {
-		last, since := int64(-1), time.Now()
+		// stagnation is counted in polls, not wall-clock time: a process that was not scheduled for a
+		// while does not look stuck
+		last, polls := int64(-1), 0
 		for {
 			time.Sleep(500 * time.Millisecond)
 			now := atomic.LoadInt64(&progress)
 			if now != last {
-				last, since = now, time.Now()
+				last, polls = now, 0
 				continue
 			}
-			if now > 0 && time.Since(since) > stuckAfter {
+			polls++
+			if now > 0 && time.Duration(polls)*500*time.Millisecond > stuckAfter {
 				what, _ := lastCall.Load().(string)
-				c.Emit("direct liveness FAIL no call into the tree has returned for %v; last call started or finished: %s", stuckAfter, strings.ReplaceAll(what, " ", "_"))
+				c.Emit("direct liveness FAIL no call into the tree has returned for %v; last call started or finished: %s", stuckAfter, what)
 				c.Out.Flush()
 				fmt.Println("stat stuck=1")
 				os.Exit(0)
@@ -244,7 +247,6 @@ func parseOp(s string) op {
 }
 
 func apply(t *topic.Tree, o op) {
-	tick(o.text())
 	defer tick(o.text() + " returned")
 	switch o.kind {
 	case 'A':
